@@ -183,7 +183,9 @@ func IsDomainName(s string) (labels int, ok bool) {
 	// XXX: The logic in this function was copied from packDomainName and
 	// should be kept in sync with that function.
 
-	const lenmsg = 256
+	// The labels with their length octets may take all but the last of the 255
+	// wire octets, which is the root label.
+	const lenmsg = maxDomainNameWireOctets - 1
 
 	if len(s) == 0 { // Ok, for instance when dealing with update RR without any rdata.
 		return 0, false
